@@ -15,6 +15,7 @@
 (*   Deliver i, cls, sym      the call at instruction i returned ("val") or raised (cls) *)
 (*   EnvTimer i / EnvExt i,o  the backend fired a timer / an external completion arrived *)
 (*   InvEnd o                 the wrapper returned/raised, or the process was killed *)
+(*   Log i, cls               context.logger call at LOG instruction i: emitted ("log") or suppressed ("nolog") *)
 (* Everything else the user thread does is silent (and deterministic).     *)
 (***************************************************************************)
 EXTENDS Durable, Integers, Json, IOUtils, TLCExt
@@ -39,7 +40,11 @@ IsEv(name) == l <= Len(Tr) /\ Ev.ev = name
 Consume == l' = l + 1 /\ UNCHANGED <<tid, prog>>
 Silent == UNCHANGED <<tid, l, prog>>
 
-TInvStart == IsEv("InvStart") /\ StartInvocation /\ Consume
+\* (the event says whether the invocation payload held at most the EXECUTION operation)
+TInvStart == IsEv("InvStart") /\ StartInvocation /\ lg'.small = (Ev.o = "small") /\ Consume
+
+\* a context.logger call between operations, emitted ("log") or suppressed ("nolog")
+TLog == /\ IsEv("Log") /\ pc = Ev.i /\ LogStep /\ last'[2] = Ev.cls /\ Consume
 
 \* the updates of the call are exactly the head of the SDK's FIFO, in order
 UsMatch(k) == /\ k <= Len(q)
@@ -84,7 +89,7 @@ SilentUser ==
 
 TraceDone == l = Len(Tr) + 1 /\ UNCHANGED tvars
 
-TraceNext == TInvStart \/ TApi \/ TApiEmpty \/ TFnEnter \/ TDeliver \/ TEnvTimer \/ TEnvExt \/ TInvEnd \/ SilentUser \/ TraceDone
+TraceNext == TInvStart \/ TLog \/ TApi \/ TApiEmpty \/ TFnEnter \/ TDeliver \/ TEnvTimer \/ TEnvExt \/ TInvEnd \/ SilentUser \/ TraceDone
 
 TraceSpec == TraceInit /\ [][TraceNext]_tvars
 
